@@ -925,11 +925,25 @@ func auparseFamily(ctx *Ctx) error {
 			return
 		}
 		if o.Panic != "" {
+			// C05's clauses (panic, repeated calls differ) are monitor violations of C05; under C04/C12
+			// a panic on one of their own well-formed inputs is reported as their clause
 			cl := "C05: panic: " + o.Panic
 			if strings.HasPrefix(o.Panic, "repeated") || strings.HasPrefix(o.Panic, "message returned") {
 				cl = "C05: " + o.Panic
 			}
-			res.Violate(common.Violation{Kind: "monitor", Clause: cl, Input: c, Impl: o.Out, Case: idx})
+			switch {
+			case ctx.Prop == "C05":
+				res.Violate(common.Violation{Kind: "monitor", Clause: cl, Input: c, Impl: o.Out, Case: idx})
+			case ctx.Prop == "C04" && c.Hdr != nil && !c.Bad && !strings.HasPrefix(o.Panic, "repeated"):
+				res.Violate(common.Violation{Kind: "monitor", Clause: "C04: no message for a well-formed line: the parser panicked: " + o.Panic, Input: c, Impl: o.Out, Case: idx})
+			case ctx.Prop == "C12" && c.Expect != nil && !strings.HasPrefix(o.Panic, "repeated"):
+				res.Violate(common.Violation{Kind: "monitor", Clause: "C12: Data() panicked on a kernel-formatted record: " + o.Panic, Input: c, Impl: o.Out, Case: idx})
+			default:
+				res.Hist("sibling_clause_failed")
+				res.Violate(common.Violation{Kind: "correspondence", Clause: "the implementation panicked where the model returns a result (" + c.Kind + ")", Input: c, Impl: "panic", Note: "on this input a clause of a sibling property fails: " + cl, Case: idx})
+			}
+			idx++
+			return
 		}
 		if o.Err != nil {
 			res.Hist("result:" + errClass(o.Err))
